@@ -167,6 +167,22 @@ pub fn plan(prop: &str) -> Vec<Item> {
             }
         }
     }
+    // "no operation is lost or left stranded" is judged in every scenario (STRANDED / UNFINISHED / DUPLICATE / NOT-QUIET are C03's
+    // classes everywhere), so C03 also explores the targeted instances of the future-operation and suspension properties
+    if prop == "C03" {
+        let mut seen: std::collections::BTreeSet<(String, String)> = v.iter().map(|i| (i.scenario.to_string(), i.cfg.to_string())).collect();
+        for q in ["C06", "C07", "C08", "C13"] {
+            for i in plan_base(q) {
+                if i.scenario == "prog" || !seen.insert((i.scenario.to_string(), i.cfg.to_string())) {
+                    continue;
+                }
+                let mut i = i;
+                i.quick = i.quick.map(|b| b.min(1));
+                i.thorough = i.thorough.min(2);
+                v.push(i);
+            }
+        }
+    }
     // generated programs with three and four caller threads
     const CORE: &[&str] = &["D", "S", "T", "FDa", "FSa", "AF", "FDx", "Dx", "FDs"];
     match prop {
@@ -287,7 +303,7 @@ fn plan_base(prop: &str) -> Vec<Item> {
             v.push(it("panic_contain", "pool=1,ctx=3", Some(2), 3));
             v.push(it("panic_contain", "pool=2,ctx=0", Some(1), 2));
             v.push(it("panic_many", "pool=2,keep=1", Some(1), 2));
-            v.push(it("panic_many", "pool=3,keep=2", Some(1), 2));
+            v.push(it("panic_many", "pool=3,keep=2", Some(0), 1));
             v.push(it("fd_result", "pool=1,mode=2,after=1", Some(2), 3));
             v.push(it("wake_ctx", "pool=1,kind=0,ctx=0,wake=0", Some(2), 4));
             v.push(it("pipe_in_items", "pool=1,n=2,pat=1,conc=2", Some(1), 2));
